@@ -218,7 +218,11 @@ def from_meshio(m,
 
     # attempt parsing skfem tags
     if m.cell_data:
-        _boundaries, _subdomains = mtmp._decode_cell_data(m.cell_data)
+        t2f = None
+        if getattr(mtmp, 'sort_t', False):
+            # the elements of mtmp are re-sorted, those in the file are not
+            t2f = mesh_type(p, t, sort_t=False).t2f
+        _boundaries, _subdomains = mtmp._decode_cell_data(m.cell_data, t2f)
         boundaries.update(_boundaries)
         subdomains.update(_subdomains)
 
